@@ -2,7 +2,7 @@
 # tools/keepmutant.sh <Cxx> <N> "<RESULT line from evalmutant.sh>" [note]
 # Files a confirmed seeded change under /verif/seeded/<Cxx>-m<N>/ (patch.diff, demo/, meta.json).
 C="$1"; N="$2"; R="$3"; NOTE="${4:-}"
-S=/tmp/mut/$C/out; D=/verif/seeded/$C-m$N
+S=${MUTSRC:-/tmp/mut/$C/out}; D=/verif/seeded/$C-m${MUTIDX:-$N}
 mkdir -p "$D"
 cp "$S/m$N.diff" "$D/patch.diff"
 rm -rf "$D/demo"; cp -r "$S/m${N}_demo" "$D/demo" 2>/dev/null
